@@ -16,6 +16,7 @@ REGISTRY = {
     "C11": ("p_powermanager", "C11"),
     "C12": ("p_graphformulas", "C12"),
     "C14": ("p_powerdist", "C14"),
+    "C15": ("p_results", "C15"),
     "C20": ("p_datasourcing", "C20"),
 }
 
